@@ -25,6 +25,7 @@ def obsKind : Obs → String
   | .exitS => "exit" | .exitR => "exit"
   | .callRet _ => "ret" | .closeRaised _ => "ret"
   | .logged _ => "clock"
+  | .enqueued _ => "enq"
 
 /-- forget ghost history the acceptor does not need (keeps the state set small); the log keeps the ring's window -/
 def strip (P : Params) (s : St) : St :=
